@@ -5,7 +5,7 @@ Coq by `Eval vm_compute in xshow_run ...` on op lists written as Coq terms and
 flattened results (every answer, final complete state) must be identical.
 Exit status 0 = identical."""
 import os, re, subprocess, sys
-sys.path.insert(0, "/verif/lib")
+sys.path.insert(0, os.path.join(os.path.dirname(os.path.abspath(__file__)), "..", "lib"))
 import gen
 from engine import MODEL_BIN, COQ_DIR, CACHE
 
